@@ -30,7 +30,7 @@ inductive W where
   | w8 | w16 | w32 | w64
   deriving DecidableEq, Repr, Inhabited
 
-@[simp] def W.bits : W → Nat
+@[simp, reducible] def W.bits : W → Nat
   | .w8 => 8 | .w16 => 16 | .w32 => 32 | .w64 => 64
 
 structure State where
@@ -60,13 +60,13 @@ def State.set (s : State) (r : Reg) (v : BitVec 64) : State :=
 def State.getW (s : State) (r : Reg) (w : W) : BitVec w.bits := (s.get r).setWidth w.bits
 
 /-- write a register at width `w`: 64 → whole register; 32 → zero-extended into the whole register;
-    16 / 8 → the other bits are preserved -/
+    16 / 8 → the other bits are preserved (old / 2^w * 2^w + v) -/
 def State.setW (s : State) (r : Reg) (w : W) (v : BitVec w.bits) : State :=
   match w with
   | .w64 => s.set r v
   | .w32 => s.set r (v.setWidth 64)
-  | .w16 => s.set r ((s.get r &&& 0xFFFFFFFFFFFF0000#64) ||| v.setWidth 64)
-  | .w8 => s.set r ((s.get r &&& 0xFFFFFFFFFFFFFF00#64) ||| v.setWidth 64)
+  | .w16 => s.set r (BitVec.ofNat 64 ((s.get r).toNat / 65536 * 65536 + v.toNat))
+  | .w8 => s.set r (BitVec.ofNat 64 ((s.get r).toNat / 256 * 256 + v.toNat))
 
 /-! ### memory (little endian) -/
 
